@@ -6,6 +6,7 @@ import (
 	"errors"
 	"fmt"
 	"io/ioutil"
+	"math"
 	"net/http"
 	"os"
 	"path"
@@ -150,6 +151,66 @@ func (bo *kvbatchOperator) IsBatchable(cmdName string, pk string, args [][]byte)
 		return true
 	}
 	return false
+}
+
+// isValidBatchableWrite reports whether the arguments of a batchable write pass the checks its
+// handler makes before it writes anything. A command the handler is going to reject must not
+// join a batch: its error aborts the whole write batch, so the writes of the other commands
+// collected so far would be dropped and their clients would get this command's error. Since the
+// grouping of committed entries differs between replicas (and between live apply and replay),
+// the replicas would then hold different data. Such a command is applied alone instead.
+// Being too strict here only costs the batching of one command; commands unknown here keep
+// the old behaviour.
+func isValidBatchableWrite(cmdName string, args [][]byte, ts int64) bool {
+	if len(args) < 2 {
+		return false
+	}
+	key := args[1]
+	if common.CheckKey(key) != nil {
+		return false
+	}
+	pos := bytes.IndexByte(key, ':')
+	if pos <= 0 {
+		// no table name
+		return false
+	}
+	validTTL := func(d int64) bool {
+		return d > 0 && d < int64(math.MaxUint32-1)-ts/int64(time.Second)
+	}
+	switch cmdName {
+	case "set":
+		if len(args) < 3 || len(args[2]) > rockredis.MaxValueSize {
+			return false
+		}
+		if len(args) > 3 {
+			d, _, _, err := getExNxXXArgs(args[3:])
+			if err != nil || (d != 0 && !validTTL(d)) {
+				return false
+			}
+		}
+	case "setex":
+		if len(args) != 4 || len(args[3]) > rockredis.MaxValueSize {
+			return false
+		}
+		d, err := strconv.Atoi(string(args[2]))
+		if err != nil || !validTTL(int64(d)) {
+			return false
+		}
+	case "del":
+		return len(args) == 2
+	case "hmset":
+		fvs := args[2:]
+		if len(fvs)%2 != 0 || len(fvs)/2 > rockredis.MAX_BATCH_NUM {
+			return false
+		}
+		rk := key[pos+1:]
+		for i := 0; i < len(fvs); i += 2 {
+			if common.CheckKeySubKey(rk, fvs[i]) != nil || len(fvs[i+1]) > rockredis.MaxValueSize {
+				return false
+			}
+		}
+	}
+	return true
 }
 
 func (bo *kvbatchOperator) AbortBatchForError(err error) {
@@ -749,7 +810,7 @@ func (kvsm *kvStoreSM) ApplyRaftRequest(isReplaying bool, batch IBatchOperator, 
 				cmdStart := time.Now()
 				cmdName := strings.ToLower(string(cmd.Args[0]))
 				pk := cmd.Args[1]
-				if batch.IsBatchable(cmdName, string(pk), cmd.Args) {
+				if batch.IsBatchable(cmdName, string(pk), cmd.Args) && isValidBatchableWrite(cmdName, cmd.Args, reqTs) {
 					if !batch.IsBatched() {
 						err := batch.BeginBatch()
 						if err != nil {
